@@ -23,8 +23,25 @@ type c20Meta struct {
 	Key   [32]byte
 }
 
-func (m c20Meta) real() PunchMetadata {
-	return PunchMetadata{Nonce: hex.EncodeToString(m.Nonce[:]), Obfs: hex.EncodeToString(m.Key[:])}
+// c20Spell: how real() spells the hexadecimal strings of the metadata the code under test is given:
+// 0 lower case, 1 upper case, 2 alternating. hex.DecodeString, which the metadata format is defined
+// by, accepts all three, and the peer writes the rendezvous JSON. (Added after the independently
+// seeded change C20-6: a hand-written hex decoder that got upper-case low nibbles wrong.)
+var c20Spell int
+
+func (m c20Meta) real() PunchMetadata { return m.spelled(c20Spell) }
+
+func (m c20Meta) spelled(mode int) PunchMetadata {
+	f := func(b []byte) string {
+		h := []byte(hex.EncodeToString(b))
+		for i, c := range h {
+			if c >= 'a' && c <= 'f' && (mode == 1 || (mode == 2 && i%2 == 1)) {
+				h[i] = c - 'a' + 'A'
+			}
+		}
+		return string(h)
+	}
+	return PunchMetadata{Nonce: f(m.Nonce[:]), Obfs: f(m.Key[:])}
 }
 
 // c20BaseMeta is a fixed metadata set; the variants differ from it in exactly one bit.
